@@ -87,7 +87,7 @@ func stThread(st store.Store, name string, txns []stTxn) {
 		vsched.Emit(Mon, fmt.Sprintf("txn-open %s id=%s write=%v", tag, t.id, t.write))
 		// state the caller touches only inside transactions on this id needs no further synchronisation (C16):
 		// a plain word per id, written in write transactions and read in read transactions
-		if p := stScratch[t.id]; p != nil {
+		if p := stScratchOf(st)[t.id]; p != nil {
 			if t.write {
 				*p++
 			} else {
@@ -122,7 +122,20 @@ func stThread(st store.Store, name string, txns []stTxn) {
 	}
 }
 
-var stScratch = map[string]*int{"a": new(int), "b": new(int)}
+// one scratch word per (store handle, id): the key lock that orders the transactions belongs to the handle
+// (ST4 runs two handles on one database; their transactions are not mutually exclusive by design)
+var stScratch = map[store.Store]map[string]*int{}
+
+// stRegister is called by the main thread when a store is created (before the contending threads start).
+func stRegister(st store.Store) store.Store {
+	if len(stScratch) > 64 {
+		stScratch = map[store.Store]map[string]*int{} // stores of earlier executions
+	}
+	stScratch[st] = map[string]*int{"a": new(int), "b": new(int)}
+	return st
+}
+
+func stScratchOf(st store.Store) map[string]*int { return stScratch[st] }
 
 func newStore(kind string) store.Store {
 	cb := func(id string, before, after interface{}) {
@@ -132,7 +145,7 @@ func newStore(kind string) store.Store {
 	case "mock":
 		s := mockstore.NewStore()
 		s.OnChange(cb)
-		return s
+		return stRegister(s)
 	case "badger", "badger-prefix":
 		ClearDB()
 		s := badgerstore.NewStore(DB)
@@ -140,7 +153,7 @@ func newStore(kind string) store.Store {
 			s.SetPrefix("ba")
 		}
 		s.OnChange(cb)
-		return s
+		return stRegister(s)
 	}
 	panic("unknown store kind " + kind)
 }
@@ -396,6 +409,8 @@ func init() {
 				return s
 			}
 			a, b := mk(), mk()
+			stRegister(a)
+			stRegister(b)
 			stThread(a, "M", []stTxn{{true, "a", []string{"create:0"}}})
 			done := make(chan struct{}, 4)
 			spawn("T0", done, func() { stThread(a, "T0", []stTxn{{true, "a", []string{"update:1"}}}) })
